@@ -21,3 +21,4 @@ def run(tier, rep):
         "basic_bitset is driven through its own surface (unchecked_set/reset/flip/test; it has no string constructors, operator~ or conversions)",
         "the TLA+ reading of std::bitset is calibrated against libstdc++ std::bitset on the same scripts and histories",
     ]
+
